@@ -28,7 +28,8 @@ LEVEL_TEXT = ("Generated configuration files (1-4 servers; args with spaces, quo
               " Unknown names are placed first, last and between known ones in the runner's list."
               ' Also bare commands resolved through the configured PATH with a same-named decoy on the host PATH, and a load preceded by a caller editing the previously returned parameters.'
               ' Also names differing only by case/space/normalisation, unknown names that re-spell a configured one, whitespace at the edges of args and env values.'
-              ' Also programs installed under paths with spaces and quotes with no arguments, and a UTF-8 configuration read under a C locale with UTF-8 mode off.')
+              ' Also programs installed under paths with spaces and quotes with no arguments, and a UTF-8 configuration read under a C locale with UTF-8 mode off.'
+              ' Also arguments and environment values that are not NFC-stable or hold format characters (ZWJ, ZWNJ, soft hyphen, word joiner).')
 LEVEL_NOTE = ("Trusted: the witness (children/witness.py) reading /proc/self/cmdline and /proc/self/environ; the harness "
               "environment passed to each entry-point process is known, so the documented inherited subset is computable.")
 RULE = ("case = (config, requested servers, entry point) or (malformed class). Non-trivial: all (each launches real "
